@@ -71,7 +71,7 @@ func formatCases(f *ssa.Function) map[int64]*ssa.BasicBlock {
 }
 
 func C15(ctx *core.Ctx, r *core.Report) {
-	r.Explanation = "Structure of nodeutil's JSON writer, decided on all paths: every scalar value kind is rendered by an explicit case of writeValue or is in the table of kinds whose text is always a JSON literal, and text taken from a value reaches the stream only through the escaping writeString; the array brackets around a value are both conditioned on the same IsList predicate and the begin/end callbacks of the root and of nested containers open and close lists/objects under the same predicate; Flush's error and the edit's error are returned; nothing but the buffered writer touches the output stream; member names come from the schema identifier with the OriginalModule qualification rule. Not decided: bracket balance for every callback sequence, correctness of the copied string escaper (it is encoding/json's), numeric text."
+	r.Explanation = "Structure of nodeutil's JSON writer, decided on all paths: every scalar value kind is rendered by an explicit case of writeValue or is in the table of kinds whose text is always a JSON literal, and text taken from a value reaches the stream only through the escaping writeString; the array brackets around a value are both conditioned on the same IsList predicate and the begin/end callbacks of the root and of nested containers open and close lists/objects under the same predicate; Flush's error and the edit's error are returned; nothing but the buffered writer touches the output stream; member names come from the schema identifier with the OriginalModule qualification rule. Decimal64 text is the shortest exact form (FormatFloat -1/64). Not decided: bracket balance for every callback sequence, correctness of the copied string escaper (it is encoding/json's), numeric text."
 	wv := ctx.Method("nodeutil", "JSONWtr", "writeValue")
 	if wv == nil || len(wv.AnonFuncs) == 0 {
 		r.Fatalf("anchor nodeutil.JSONWtr.writeValue (and its item closure) not found")
